@@ -47,11 +47,14 @@ for st in ("CONCURRENCY_CONTROLLED", "KILLED", "PENDING_RECOVERY", "RUNNING_RECO
 add("C03", "C03/R3/exit::get_additional_invocations_to_run::S(CONCURRENCY_CONTROLLED)::raise:InvocationStatusTransitionError",
     "two blocked invocations in one poll: the first is marked CONCURRENCY_CONTROLLED (reroute deferred to the end of the poll), the second is rejected by the status table (RETRY -> CONCURRENCY_CONTROLLED) and the error leaves the poll before the deferred reroute: the first stays CONCURRENCY_CONTROLLED, not queued (found with two loop unrollings, thorough tier)",
     "history: as C06/R3, with one more same-key invocation in REGISTERED polled before the RETRY one", "findings/repro/r2_cc_typestate.py", "same root cause as C06/R3 (state-machine change)")
+add("C03", "C03/R3/exit::get_additional_invocations_to_run::S(CONCURRENCY_CONTROLLED)::return:after-caught:InvocationStatusTransitionError",
+    "the same history seen from a process worker (persistent_process_main): the status error that leaves the poll is swallowed by the worker's generic `except Exception`, the worker carries on, and the first invocation stays CONCURRENCY_CONTROLLED, not queued (the deferred reroute never ran)",
+    "history: as above, polled by a PersistentProcessRunner worker", "findings/repro/r2_cc_typestate.py", "same root cause as C06/R3 (state-machine change)")
 for key in [
     "C03/R3/exit::get_additional_invocations_to_run::S!(CONCURRENCY_CONTROLLED:typestate:from=RETRY)::raise:InvocationStatusTransitionError",
-    "C03/R3/exit::get_additional_invocations_to_run::S!(CONCURRENCY_CONTROLLED:typestate:from=RETRY)::return",
+    "C03/R3/exit::get_additional_invocations_to_run::S!(CONCURRENCY_CONTROLLED:typestate:from=RETRY)::return:after-caught:InvocationStatusTransitionError",
     "C03/R3/exit::get_additional_invocations_to_run::S!(CONCURRENCY_CONTROLLED_FINAL:typestate:from=REROUTED,RETRY)::raise:InvocationStatusTransitionError",
-    "C03/R3/exit::get_additional_invocations_to_run::S!(CONCURRENCY_CONTROLLED_FINAL:typestate:from=REROUTED,RETRY)::return",
+    "C03/R3/exit::get_additional_invocations_to_run::S!(CONCURRENCY_CONTROLLED_FINAL:typestate:from=REROUTED,RETRY)::return:after-caught:InvocationStatusTransitionError",
 ]:
     add("C03", key, "a popped invocation in RETRY / REROUTED that is blocked by concurrency control is rejected by the status table; the poll ends (raise, or swallowed by the worker's generic handler) with the message gone and the invocation in an available status that is not queued",
         "history: task with running concurrency; one invocation RUNNING, a same-key invocation fails with a retriable error (RETRY, re-queued) and is polled while the first still runs", "findings/repro/r2_cc_typestate.py",
